@@ -46,6 +46,12 @@ pub fn miri_mode() -> bool {
     std::env::var("VERIF_MIRI").map_or(false, |v| v == "1")
 }
 
+/// set by ./check for the valgrind pass: everything runs 25-50 times slower there, so verdicts that
+/// need the peers to answer within their own time limits (liveness) are inconclusive, not violations
+pub fn memcheck_mode() -> bool {
+    std::env::var("VERIF_MEMCHECK").map_or(false, |v| v == "1")
+}
+
 pub type CaseFn = fn(&mut Ctx, &mut Rng, u64);
 
 pub struct Gen {
